@@ -380,8 +380,9 @@ where
 					self.doctest_mode,
 				);
 				match res {
-					Ok(s) => return Ok(s.unwrap()),
-					Err(_) => return Ok(ret_slate),
+					Ok(Some(s)) => return Ok(s),
+					// nothing was sent (no usable address, or sending is switched off)
+					Ok(None) | Err(_) => return Ok(ret_slate),
 				}
 			}
 			None => Ok(ret_slate),
